@@ -65,6 +65,7 @@ P_ = sched.PLAIN
 QUICK = {
     'cycles-n3': dict(P_, n=3, milestones=True, scenarios=[(0, -1)]),
     'cycles-n4': dict(P_, n=4, fixed_parent=[-1, 0, -1, -1], E=8, scenarios=[(0, -1)]),
+    'cycles-n4-deep': dict(P_, n=4, fixed_parent=[-1, 0, 1, -1], E=8, scenarios=[(0, -1)]),
     'outside-pred': dict(P_, n=2, outside=True, scenarios=[(0, -1)]),
     'outside-pred-nameless-n3': dict(P_, n=3, outside=True, nameless=True, links=True, E=4, scenarios=[(0, -1)]),
     'future-end': dict(P_, n=2, future_end=True, scenarios=[(0, 0), (0, 2)]),
